@@ -283,6 +283,19 @@ def _shard(shard, col: Collector):
         explore(body, col, bound=shard[1], sub="parallel", on_exec=on_exec2, case_extra={"bound": shard[1]})
         col.sample({"kind": "parallel workers", "designs": 2, "workers": 2, "deviation_bound (faults + pre-emptions)": shard[1]}, 1)
         return
+    if shard[0] == "returns":
+        # an objective that RETURNS (a numpy array whose truth value is False, zeros, inf/nan, surplus auxiliary outputs) has not
+        # failed: no retry, no re-sampling, nothing logged as failed
+        from . import c05
+        for kind_ in ("ndarray", "tuple", "zero-list", "nonfinite", "surplus", "npscalar-list"):
+            for parallel in (False, True):
+                for via in ("batch", "sweep"):
+                    col.case()
+                    col.nontrivial(("returns", kind_, parallel, via))
+                    for key, msg in c05.check_objective_values(kind_, parallel, via):
+                        col.violation(key.replace("C05:objective-values:", "C06:returned-value-treated-as-failure:"), "returns", msg, {"kind": kind_, "parallel": parallel, "via": via})
+        col.sample({"kind": "objectives that return unusual values are not failures"}, 1)
+        return
     if shard[0] == "bigbatch":
         # batches far larger than the enumerated ones, with a fixed script of transient failures spread over the batch
         _, cfg, seed = shard
@@ -296,6 +309,17 @@ def _shard(shard, col: Collector):
                 ctx, out = run_once(body_factory(cfg, n, False, seed), choices)
                 for key, msg in out:
                     col.violation(key + ":large-batch", "bigbatch", msg[:400], {"cfg": cfg, "n": n, "choices": choices, "seed": seed})
+        if cfg == "unit":
+            # more than a thousand logged failures in one run (260 designs failing four times each, 130 failing twice)
+            for n, k in ((260, 4), (130, 2), (513, 2)):
+                choices = []
+                for d in range(n):
+                    choices += [1 + (d + j) % 2 for j in range(k)] + [0]
+                col.case()
+                col.nontrivial(("manyfail", n, k))
+                ctx, out = run_once(body_factory(cfg, n, False, seed), choices)
+                for key, msg in out:
+                    col.violation(key + ":many-failures", "bigbatch", msg[:400], {"cfg": cfg, "n": n, "choices": choices, "seed": seed})
         col.sample({"kind": "large batches with scripted failures", "config": cfg, "sizes": [31, 33, 65, 257]}, 1)
         return
     if shard[0] == "worst":
@@ -347,6 +371,9 @@ def replay(sub, case):
         from . import c07
         ctx, out = run_once(c07.body_factory(2, False, False, "free", None), case["choices"])
         return out
+    if sub == "returns":
+        from . import c05
+        return [(k.replace("C05:objective-values:", "C06:returned-value-treated-as-failure:"), m) for k, m in c05.check_objective_values(case["kind"], case["parallel"], case["via"])]
     if sub == "bigbatch":
         ctx, out = run_once(body_factory(case["cfg"], case["n"], False, case["seed"]), case["choices"])
         return out
@@ -376,6 +403,7 @@ def run(tier, seed):
     shards.append(("parallel", 2 if tier == "thorough" else 1))
     shards.append(("zoo", seed))
     shards.append(("worst",))
+    shards.append(("returns",))
     shards.append(("bigbatch", "unit", seed))
     shards.append(("bigbatch", "offgrid", seed))
     shards.append(("unit_surrogate_trained", 2, False, None, seed))
